@@ -92,6 +92,14 @@ def check(case):
     if case["input"].get("threads") is not None and len(s["data"]) < 3000:
         sp = {k_: v_ for k_, v_ in s.items() if k_ != "consumer"}
         common.check_threads(res, "C02", [dict(sp, id="t0"), dict(sp, id="t1"), dict(sp, id="t2")], case["input"]["threads"], label=label)
+    # types declared during the history (sim/dyntypes.py): every 40-th run or so, derived from the case so that a replay needs nothing else
+    if int(__import__("hashlib").sha256(repr(sorted((t_["id"], t_.get("data", "")[:48]) for t_ in case["tasks"])).encode()).hexdigest()[:6], 16) % 40 == 0:
+        from .. import dyntypes
+        seed_ = int(__import__("hashlib").sha256(repr([t_.get("data", "")[:48] for t_ in case["tasks"]]).encode()).hexdigest()[6:12], 16)
+        res.count("types-declared-during-the-history")
+        for msg_ in dyntypes.run("C02", seed_):
+            res.v("C02.D", "C02.D:declared-later", "a type declared during the history (template seed %d): %s" % (seed_, msg_))
+            break
     res.nontrivial(s["type"], s.get("cc"), mode, s["data"])
     return res
 
